@@ -167,6 +167,35 @@ def bignet_cases(tier, seed0):
                     yield {"sub": "shape", "engine": engine, "space": spname + ":" + name, "state_class": stname, "script": sc}
 
 
+def route_cases(tier, seed0):
+    """simulate_script(print_progress=True) and the coarse-graining route (index maps with lumped and dropped cells)."""
+    # (groups only lump cells of one environment, as coarse-graining requires)
+    grids = [("grid2x2x1", {"type": "grid", "w": 2, "h": 2, "d": 1, "bc": {}, "env": [0, 0, 1, 1], "vol": 1.5},
+              [[0, 1, 2, 3], [0, 0, 1, 1], [0, 1, -1, -1], [-1, 0, 1, 1], [0, -1, -1, 1], [1, 1, 0, 0]]),
+             ("grid3x1x1", {"type": "grid", "w": 3, "h": 1, "d": 1, "bc": {}, "env": [0, 0, 1], "vol": 0.5},
+              [[0, 1, 2], [0, 0, 1], [-1, 0, 1], [0, -1, 1], [0, 1, -1], [1, 1, 0]]),
+             ("grid2x1x2", {"type": "grid", "w": 2, "h": 1, "d": 2, "bc": {}, "env": [1, 1, 0, 0], "vol": 8.0},
+              [[0, 1, 2, 3], [0, 0, 1, -1], [-1, -1, 0, 1]])]
+    k = 0
+    for engine in ("euler", "tauleap", "gillespie"):
+        for gname, space, maps in grids:
+            n = space["w"] * space["h"] * space["d"]
+            for ns in (1, 2):
+                spec = {"species": [{"label": "AB"[q], "D": [0.5, {"default": 0.25, "e0": 0.1}][q]} for q in range(ns)],
+                        "reactions": REACTIONS[1] if ns == 2 else [R([], [("A", 1)], 0.5)], "envs": ["e0", "e1"], "space": space,
+                        "state": state_for("small-int", ns, n)}
+                for si_, (pol, samp) in enumerate(SAMPLING[:3] + SAMPLING[6:8]):
+                    k += 1
+                    sc = {"system": spec, "time_step": 0.125, "policy": pol, "seed": 1000 * seed0 + k % 3, "isp": "auto"}
+                    sc.update(samp)
+                    yield {"sub": "shape", "engine": engine, "space": gname + ":progress", "state_class": "small-int", "script": sc, "route": "progress"}
+                    for m in maps:
+                        if tier == "quick" and (k + len(m) + sum(m)) % 2:
+                            continue
+                        yield {"sub": "shape", "engine": engine, "space": gname + ":cgmap" + "".join("x" if v < 0 else str(v) for v in m),
+                               "state_class": "small-int", "script": sc, "route": "cgmap", "cgmap": m, "progress": bool(k % 2)}
+
+
 def pinned_cases():
     """Inputs of recorded known findings are kept in the catalogue explicitly so that the finding stays visible."""
     spec = {"species": [{"label": "A", "D": 0.5}, {"label": "B", "D": 0.0}],
@@ -179,6 +208,21 @@ def pinned_cases():
 def run_script(case, variant):
     script = models.build_script(case["script"])
     e = eng.make_engine(case["engine"], variant)
+    route = case.get("route")
+    if route:
+        # the library's own drivers: simulate_script with its documented keywords (progress printing, cgmap)
+        import contextlib
+        import io
+        from strengths.simulate import simulate_script
+        kw = {}
+        if route == "progress":
+            kw["print_progress"] = True
+        else:
+            kw["cgmap"] = list(case["cgmap"])
+            kw["print_progress"] = bool(case.get("progress"))
+        with contextlib.redirect_stdout(io.StringIO()):
+            o = simulate_script(script, e, **kw)
+        return (o.t.value.tobytes(), o.data.value.tobytes(), -1)
     e.setup(script)
     n = 0
     while n < 400 and e.iterate():
@@ -290,7 +334,7 @@ def run(ctx):
     # the sanitized build costs 5-10x the plain one: the lifecycle sub-spaces are explored one level less deep than in C10
     hjobs, subs = c10.build_jobs(ctx.tier, ctx.seed, d1=4 if ctx.tier == "quick" else 5, d2=3 if ctx.tier == "quick" else 4,
                                  dlm=4 if ctx.tier == "quick" else 5, light=True)
-    sc = list(shape_cases(ctx.tier, ctx.seed)) + list(bignet_cases(ctx.tier, ctx.seed)) + list(pinned_cases())
+    sc = list(shape_cases(ctx.tier, ctx.seed)) + list(bignet_cases(ctx.tier, ctx.seed)) + list(route_cases(ctx.tier, ctx.seed)) + list(pinned_cases())
     _JOBS = [("shape", c) for c in sc] + hjobs
     ctx.sample(sc[len(sc) // 2])
     for j in hjobs[40:42] + hjobs[-1:]:
